@@ -16,6 +16,14 @@ the distance `_hi - _lo` strictly decreases (termination).  Obligations are name
 
 The element expression (`self->keys[_i]` / `self->data[_i].key`) and the key expression are TAKEN FROM
 THE AST of the comparison inside the loop (the `<` of TEST_KEY_SET_OR's expansion), not assumed.
+RANGE END (C02).  `Bucket_findRangeEnd(self, key, low, exclude_equal, &offset)` turns the search result into
+the end of a range; it is executed to its return with the search's postcondition (the obligations above) used
+as a lemma at the indices needed, and proved against the statement of C02 for a leaf:
+  returns 1  =>  0 <= offset < len, keys[offset] qualifies (>= key, > key, <= key, < key by low / exclude_equal)
+                 and no key before (low) / after (high) it qualifies
+  returns 0  =>  no key of the leaf qualifies, and *offset was not written
+(`F-SEARCH:Bucket_findRangeEnd:range-end:<clause>`; assumes &offset does not point into the key vector.)
+
 Preconditions (assumed, listed in evidence): the vector is strictly ascending when the search starts
 (the leaf / node invariant: C03, bounded on the C side), 0 <= len <= INT_MAX / 2 (vectors are allocated
 with sizeof(KEY_TYPE) * size <= PY_SSIZE_T_MAX).  Object-keyed units are outside F-SEARCH (their
@@ -255,9 +263,70 @@ class FSearch(CExec):
             }
         for nm, g in goals.items():
             self.oblige(st, self.tag(c, "post", nm), g)
+        c["exit"] = (st.guard, i, cmp_)
+
+    # ---- the range-end contract of Bucket_findRangeEnd (C02)
+    def on_mem_write(self, st, tname, addr, val):
+        if self.fname != "Bucket_findRangeEnd":
+            return
+        ps = {p.get("name"): p["id"] for p in self.fn.get("inner", []) if p["kind"] == "ParmVarDecl"}
+        off = st.vars.get(ps.get("offset"))
+        if off is not None and addr is not None and z3.is_true(z3.simplify(addr == off)):
+            self.offset_write = (st.guard, val)
 
     def on_return(self, st, v):
-        pass
+        if self.fname != "Bucket_findRangeEnd" or v is None:
+            return
+        cs = [c for c in self.ctx.values() if c["kind"] == "leaf" and "exit" in c]
+        if len(cs) != 1:
+            raise Unsupported("Bucket_findRangeEnd: expected exactly one leaf search")
+        c = cs[0]
+        ps = {p.get("name"): p["id"] for p in self.fn.get("inner", []) if p["kind"] == "ParmVarDecl"}
+        if not {"low", "exclude_equal", "offset"} <= set(ps):
+            raise Unsupported("Bucket_findRangeEnd: parameters low / exclude_equal / offset not found")
+        ent = self.entry
+        low, excl = ent.vars[ps["low"]] != 0, ent.vars[ps["exclude_equal"]] != 0
+        L, key = c["L"], c["key"]
+        xg, ie, cmp_ = c["exit"]
+        h = ent.clone()
+        h.heap = dict(c["heap"])          # the vector as it was when the search started
+
+        def e(j):
+            return self.elem(c, h, j)
+
+        def qual(x):
+            return z3.If(low, z3.If(excl, x > key, x >= key), z3.If(excl, x < key, x <= key))
+        j0 = fresh("j0")
+        # the search's postcondition (F-SEARCH:...:post:*, proved above for an arbitrary index) at the indices used
+        lemma = [z3.Implies(cmp_ == 0, z3.And(0 <= ie, ie < L, e(ie) == key)),
+                 z3.Implies(cmp_ != 0, z3.And(0 <= ie, ie <= L))]
+        for j in (j0, ie - 1):
+            lemma.append(z3.Implies(z3.And(cmp_ != 0, 0 <= j, j < ie), e(j) < key))
+        for j in (j0, ie):
+            lemma.append(z3.Implies(z3.And(cmp_ != 0, ie <= j, j < L), e(j) > key))
+        for a_, b_ in ((j0, ie), (ie, j0), (ie - 1, ie), (ie, ie + 1)):
+            lemma.append(self.ascending(c, h, a_, b_))
+        for f in lemma:
+            self.assumptions.append(z3.Implies(xg, f))
+        w = getattr(self, "offset_write", None)
+        wrote = w[0] if w else z3.BoolVal(False)
+        off = w[1] if w else z3.IntVal(-1)
+        inl = z3.And(0 <= j0, j0 < L)
+        goals = {
+            "stored_in_range": z3.Implies(v == 1, z3.And(wrote, 0 <= off, off < L)),
+            "stored_qualifies": z3.Implies(v == 1, qual(e(off))),
+            "stored_is_the_end": z3.Implies(z3.And(v == 1, inl, z3.If(low, j0 < off, j0 > off)), z3.Not(qual(e(j0)))),
+            "zero_means_none": z3.Implies(z3.And(v == 0, inl), z3.Not(qual(e(j0)))),
+            "zero_leaves_offset": z3.Implies(v == 0, z3.Not(wrote)),
+            "result_domain": z3.Or(v == 1, v == 0, v == -1),
+        }
+        for nm, g in goals.items():
+            self.oblige(st, "F-SEARCH:%s:range-end:%s" % (self.fname, nm), z3.Implies(xg, g))
+        for val in (0, 1):       # both outcomes are reachable under the assumptions (not a vacuous contract)
+            if z3.is_int_value(z3.simplify(v)):
+                continue         # an early `return -1` (conversion failed / could not activate): not this contract's path
+            self.covers.append(("F-SEARCH:%s:range-end:cover:returns-%d" % (self.fname, val),
+                                [st.guard, xg, v == val, L >= 2] + list(self.assumptions)))
 
 
 ANALYSIS = {"F-SEARCH": FSearch}
